@@ -9,7 +9,14 @@
 (* read back afterwards (burn_tickets rows, authorizers.total_burn /       *)
 (* total_mint).  The same payload is logged once per aspect (BlockMerge,   *)
 (* BlockTickets, BlockBurnTotals, BlockMintTotals) so that a listed known  *)
-(* finding suppresses exactly its aspect; each invariant applies the       *)
+(* finding suppresses exactly its aspect.  An op list may span several     *)
+(* consecutive blocks stored into the SAME database (ev.blk = 1, 2 ..):    *)
+(* burns / mints / merged lists are those of the block, rows / d_burn /    *)
+(* d_mint are what the block ADDED (read back after it minus read back     *)
+(* before it; rows_db = the whole table).  A block whose events the        *)
+(* handlers refused (ev.refused: the store step failed although the        *)
+(* database accepted every statement) simply added nothing - the           *)
+(* property's invariants judge that.  Each invariant applies the           *)
 (* predicate of EventDBDefs.tla that TLC checks on the model (EventDB.tla).*)
 (***************************************************************************)
 EXTENDS TraceLib, EventDBDefs
@@ -43,7 +50,8 @@ C20_BurnTotalsKnown == (Is("BlockBurnTotals") /\ IsKnown(ev) /\ ev.dup_auth_burn
 C20_MintTotals == (Is("BlockMintTotals") /\ ~(IsKnown(ev) /\ ev.dup_minter)) => MintTotals(Blk)
 C20_MintTotalsKnown == (Is("BlockMintTotals") /\ IsKnown(ev) /\ ev.dup_minter) => MintTotalsOfMerged(Blk)
 
-(* harness guard: the store step ran on sqlite (no dialect failure) *)
+(* harness guard: the store step ran on sqlite (no statement was refused by the database itself, i.e. no   *)
+(* dialect failure); a store step that failed for another reason is the handlers' own refusal (ev.refused) *)
 HarnessStoreRan == ev.ev \in {"BlockMerge", "BlockTickets", "BlockBurnTotals", "BlockMintTotals"} =>
-                      (ev.merge_err = "" /\ ev.work_err = "" /\ ev.shim_translated)
+                      (ev.merge_err = "" /\ ev.db_err = "" /\ (ev.work_err = "" \/ ev.refused) /\ ev.shim_translated)
 =============================================================================
